@@ -27,6 +27,8 @@ import (
 //   R-single-closer     a pending channel is closed by whoever removes it from the table (same critical section)
 //   R-table-pair        an entry inserted into a session/stream/pending table by a handler is removed again on
 //                       every path to that handler's exit
+//   R-reader-teardown   a background reader that tears the transport down does so on every return
+//   (R-watcher-cancels also requires that nothing blocking precedes cmd.Wait)
 func init() { Registry["C08"] = checkC08 }
 
 func checkC08(c *Ctx) {
